@@ -239,6 +239,9 @@ def run_pipeline(chk, prop, n_scenes, families=FAMILIES, crash_is_violation=Fals
             chk.count('scene_outside_modelled_parameter_domain')
             continue
         a = scenes.parse_run_answer(answers[task])
+        if a['near_tie']:
+            chk.count('float_near_tie_scenes_not_compared')
+            chk.notes.append(f"float-near-tie scene {task}: {a['near_tie'][:3]}")
         if a['bad']:
             raise common.InfraError(f'driver rejected the request of scene {task}: {answers[task][:200]}')
         for ne in a['ne']:
